@@ -358,3 +358,229 @@ Proof.
     - eapply Forall_impl; [|apply scale2_pos]. intros a Ha; simpl in Ha; lra. }
   split; [exact E|]. intros Qm. rewrite E. reflexivity.
 Qed.
+
+(** ** permuting the parameters (Spline / VectorSpline2D place one force per
+    data point: reordering the points also reorders the columns of the
+    Jacobian, of the query Jacobian and the parameters) *)
+Lemma dot_map2 {T} (f g : T -> Q) s : dot (map f s) (map g s) == Qsum (map (fun i => f i * g i) s).
+Proof. induction s as [|x t IH]; cbn; [reflexivity|]. rewrite IH. reflexivity. Qed.
+
+Lemma dot_seq a b n : length a = n -> length b = n ->
+  dot a b == Qsum (map (fun i => nth i a 0 * nth i b 0) (seq 0 n)).
+Proof.
+  intros Ha Hb. rewrite <- dot_map2. subst n. rewrite map_nth_seq. rewrite <- Hb, map_nth_seq. reflexivity.
+Qed.
+
+Lemma dot_permute s a b n : is_perm n s -> length a = n -> length b = n ->
+  dot (qpermute s a) (qpermute s b) == dot a b.
+Proof.
+  intros H Ha Hb. unfold qpermute, permute. rewrite dot_map2, (dot_seq a b n Ha Hb).
+  apply QList.Qsum_perm. apply Permutation_map. exact H.
+Qed.
+
+Definition colperm (s : list nat) (A : list (list Q)) : list (list Q) := map (qpermute s) A.
+
+Lemma mv_colperm n s A p : wfm n A -> is_perm n s -> length p = n ->
+  veq (mv (colperm s A) (qpermute s p)) (mv A p).
+Proof.
+  intros HA H Hp. induction HA as [|r A Hr HA IH]; cbn; constructor; [|exact IH].
+  apply (dot_permute s r p n); assumption.
+Qed.
+
+Lemma col_colperm s A j : (j < length s)%nat -> col j (colperm s A) = col (nth j s 0%nat) A.
+Proof.
+  intros Hj. unfold col, colperm. rewrite map_map. apply map_ext. intros r.
+  unfold qpermute. apply nth_permute. exact Hj.
+Qed.
+
+Lemma wfm_colperm n s A : length s = n -> wfm n (colperm s A).
+Proof.
+  intros H. unfold wfm, colperm. apply Forall_forall. intros r Hr. apply in_map_iff in Hr as [r0 [<- _]].
+  unfold qpermute. rewrite permute_length. exact H.
+Qed.
+
+Lemma nr_nth n A d w alpha s2 p j : ls_shapes n A d w s2 p ->
+  nth j (normal_residual n A d w alpha s2 p) 0 == dot (col j A) (uvec A d w p) + alpha * (nth j s2 0 * nth j p 0).
+Proof.
+  intros (HA & Hd & Hw & Hs & Hp). unfold normal_residual.
+  rewrite nth_vadd by (rewrite length_tmv, length_vscale, length_vmul by (assumption || congruence); congruence).
+  rewrite nth_tmv by assumption. rewrite nth_vscale, nth_vmul by congruence. reflexivity.
+Qed.
+
+Lemma uvec_colperm n s A d w p : wfm n A -> is_perm n s -> length p = n ->
+  veq (uvec (colperm s A) d w (qpermute s p)) (uvec A d w p).
+Proof.
+  intros HA H Hp. unfold uvec. apply vmul_proper; [reflexivity|]. apply vsub_proper; [|reflexivity].
+  apply (mv_colperm n); assumption.
+Qed.
+
+Theorem normal_residual_colperm n s A d w alpha s2 p : ls_shapes n A d w s2 p -> is_perm n s ->
+  veq (normal_residual n (colperm s A) d w alpha (qpermute s s2) (qpermute s p))
+      (qpermute s (normal_residual n A d w alpha s2 p)).
+Proof.
+  intros Hsh H. pose proof Hsh as (HA & Hd & Hw & Hs & Hp).
+  pose proof (is_perm_length _ _ H) as Ls.
+  assert (Hsh': ls_shapes n (colperm s A) d w (qpermute s s2) (qpermute s p)).
+  { unfold ls_shapes, qpermute. rewrite !permute_length. unfold colperm at 2 3. rewrite map_length.
+    repeat split; try assumption. apply wfm_colperm, Ls. }
+  apply veq_of_nth.
+  - rewrite (length_normal_residual _ _ _ _ _ _ _ Hsh'). unfold qpermute. rewrite permute_length. congruence.
+  - rewrite (length_normal_residual _ _ _ _ _ _ _ Hsh'). intros j Hj.
+    rewrite (nr_nth _ _ _ _ _ _ _ j Hsh').
+    assert (E1: nth j (qpermute s s2) 0 = nth (nth j s 0%nat) s2 0) by (apply nth_permute; congruence).
+    assert (E2: nth j (qpermute s p) 0 = nth (nth j s 0%nat) p 0) by (apply nth_permute; congruence).
+    assert (E3: nth j (qpermute s (normal_residual n A d w alpha s2 p)) 0 =
+                nth (nth j s 0%nat) (normal_residual n A d w alpha s2 p) 0) by (apply nth_permute; congruence).
+    rewrite E1, E2, E3.
+    rewrite (nr_nth _ _ _ _ _ _ _ (nth j s 0%nat) Hsh).
+    rewrite col_colperm by congruence.
+    rewrite (uvec_colperm n s A d w p HA H Hp). reflexivity.
+Qed.
+
+Lemma vzero_nth v : vzero v <-> forall i, (i < length v)%nat -> nth i v 0 == 0.
+Proof.
+  unfold vzero. split.
+  - intros F i Hi. rewrite Forall_forall in F. apply F. apply nth_In. exact Hi.
+  - intros H. apply Forall_forall. intros x Hx. destruct (In_nth v x 0 Hx) as [i [Hi <-]]. apply H, Hi.
+Qed.
+
+Lemma vzero_permute s v : is_perm (length v) s -> (vzero (qpermute s v) <-> vzero v).
+Proof.
+  intros H. pose proof (is_perm_length _ _ H) as Ls. rewrite !vzero_nth. unfold qpermute. rewrite permute_length.
+  split; intros Z i Hi.
+  - destruct (is_perm_surj _ _ i H Hi) as [j [Hj <-]].
+    rewrite <- (nth_permute 0 s v j) by congruence. apply Z. congruence.
+  - rewrite nth_permute by exact Hi. apply Z. apply (is_perm_nth_lt _ _ _ H). congruence.
+Qed.
+
+Lemma map_nth_fun {T} (F : nat -> T) s : map (fun j => F (nth j s 0%nat)) (seq 0 (length s)) = map F s.
+Proof. rewrite <- (map_map (fun j => nth j s 0%nat) F). rewrite map_nth_seq. reflexivity. Qed.
+
+Theorem scale2_colperm n s A : is_perm n s -> scale2 n (colperm s A) = qpermute s (scale2 n A).
+Proof.
+  intros H. pose proof (is_perm_length _ _ H) as Ls. unfold scale2, qpermute, permute.
+  transitivity (map (fun j => scale2_of (col (nth j s 0%nat) A)) (seq 0 n)).
+  - apply map_ext_in. intros j Hj. apply in_seq in Hj. rewrite col_colperm by lia. reflexivity.
+  - rewrite <- Ls at 1. rewrite (map_nth_fun (fun i => scale2_of (col i A)) s).
+    apply map_ext_in. intros i Hi. symmetry. apply nth_map_seq. apply (is_perm_lt _ _ _ H Hi).
+Qed.
+
+(** the reordered parameters solve the system with reordered columns, and
+    conversely; predictions through an equally reordered query Jacobian agree *)
+Theorem normal_eq_colperm n s A d w alpha p : ls_shapes n A d w (scale2 n A) p -> is_perm n s ->
+  (normal_eq n (colperm s A) d w alpha (scale2 n (colperm s A)) (qpermute s p) <->
+   normal_eq n A d w alpha (scale2 n A) p) /\
+  forall Qm, wfm n Qm -> veq (mv (colperm s Qm) (qpermute s p)) (mv Qm p).
+Proof.
+  intros Hsh H. split.
+  - unfold normal_eq. rewrite (scale2_colperm n s A H).
+    rewrite (normal_residual_colperm n s A d w alpha _ p Hsh H).
+    apply vzero_permute. rewrite (length_normal_residual _ _ _ _ _ _ _ Hsh). exact H.
+  - intros Qm HQ. apply (mv_colperm n); [exact HQ|exact H|]. apply Hsh.
+Qed.
+
+(** ** linearity in the data *)
+Lemma nth_lin j a x b y : length x = length y -> nth j (lin a x b y) 0 == a * nth j x 0 + b * nth j y 0.
+Proof. intros H. unfold lin. rewrite nth_vadd by (rewrite !length_vscale; exact H). rewrite !nth_vscale. reflexivity. Qed.
+Lemma length_lin a x b y : length x = length y -> length (lin a x b y) = length x.
+Proof. intros H. unfold lin. rewrite length_vadd; rewrite !length_vscale; congruence. Qed.
+
+Lemma dot_lin_r h a x b y : length x = length h -> length y = length h ->
+  dot h (lin a x b y) == a * dot h x + b * dot h y.
+Proof.
+  intros Hx Hy. unfold lin. rewrite dot_vadd_r by (rewrite length_vscale; assumption).
+  rewrite !dot_vscale_r. reflexivity.
+Qed.
+
+Lemma mv_lin n A a p1 b p2 : wfm n A -> length p1 = n -> length p2 = n ->
+  veq (mv A (lin a p1 b p2)) (lin a (mv A p1) b (mv A p2)).
+Proof.
+  intros HA H1 H2. induction HA as [|r A Hr HA IH]; [constructor|].
+  unfold lin, mv in *. cbn [map vscale vadd]. constructor; [|exact IH].
+  apply (dot_lin_r r a p1 b p2); congruence.
+Qed.
+
+Ltac lens := repeat match goal with
+  | |- context [length (vscale _ _)] => rewrite length_vscale
+  | |- context [length (mv _ _)] => rewrite length_mv
+  | |- context [length (col _ _)] => rewrite col_length
+  | |- context [length (lin ?a ?x ?b ?y)] => rewrite (length_lin a x b y) by lens
+  | |- context [length (vsub ?x ?y)] => rewrite (length_vsub x y) by lens
+  | |- context [length (vmul ?x ?y)] => rewrite (length_vmul x y) by lens
+  | |- context [length (vadd ?x ?y)] => rewrite (length_vadd x y) by lens
+  end; try congruence; try reflexivity.
+
+Lemma uvec_lin n A w a p1 d1 b p2 d2 : wfm n A -> length p1 = n -> length p2 = n ->
+  length d1 = length A -> length d2 = length A -> length w = length A ->
+  veq (uvec A (lin a d1 b d2) w (lin a p1 b p2)) (lin a (uvec A d1 w p1) b (uvec A d2 w p2)).
+Proof.
+  intros HA H1 H2 Hd1 Hd2 Hw. unfold uvec. rewrite (mv_lin n A a p1 b p2 HA H1 H2).
+  apply veq_of_nth; [lens|].
+  intros j _. rewrite nth_vmul by lens.
+  rewrite nth_vsub by lens. rewrite !nth_lin by lens.
+  rewrite !nth_vmul by lens. rewrite !nth_vsub by lens. ring.
+Qed.
+
+Theorem normal_residual_lin n A w alpha s2 a p1 d1 b p2 d2 :
+  ls_shapes n A d1 w s2 p1 -> length p2 = n -> length d2 = length A ->
+  veq (normal_residual n A (lin a d1 b d2) w alpha s2 (lin a p1 b p2))
+      (lin a (normal_residual n A d1 w alpha s2 p1) b (normal_residual n A d2 w alpha s2 p2)).
+Proof.
+  intros Hsh H2 Hd2. pose proof Hsh as (HA & Hd1 & Hw & Hs & H1).
+  assert (Hsh2: ls_shapes n A d2 w s2 p2) by (repeat split; assumption).
+  assert (Hsh12: ls_shapes n A (lin a d1 b d2) w s2 (lin a p1 b p2)).
+  { repeat split; try assumption; rewrite length_lin; congruence. }
+  apply veq_of_nth.
+  - rewrite length_lin; rewrite !length_normal_residual by assumption; reflexivity.
+  - intros j _. rewrite nth_lin by (rewrite !length_normal_residual by assumption; reflexivity).
+    rewrite !nr_nth by assumption.
+    rewrite (uvec_lin n A w a p1 d1 b p2 d2) by assumption.
+    rewrite dot_lin_r by (unfold uvec; lens).
+    rewrite nth_lin by congruence. ring.
+Qed.
+
+(** solutions superpose: fit(a d1 + b d2) is solved by a fit(d1) + b fit(d2)
+    (same Jacobian, weights, damping and column scales - none depends on the data) *)
+Theorem ls_linear n A w alpha s2 a p1 d1 b p2 d2 :
+  ls_shapes n A d1 w s2 p1 -> length p2 = n -> length d2 = length A ->
+  normal_eq n A d1 w alpha s2 p1 -> normal_eq n A d2 w alpha s2 p2 ->
+  normal_eq n A (lin a d1 b d2) w alpha s2 (lin a p1 b p2).
+Proof.
+  intros Hsh H2 Hd2 N1 N2. unfold normal_eq in *.
+  rewrite (normal_residual_lin n A w alpha s2 a p1 d1 b p2 d2 Hsh H2 Hd2).
+  unfold lin. apply vadd_zeros_vzero; apply vscale_vzero; assumption.
+Qed.
+
+(** with a unique minimiser (damped) the fit of the combined data IS the
+    combination, and so is the prediction through any query Jacobian *)
+Theorem ls_predict_linear_damped n A w alpha s2 a p1 d1 b p2 d2 p12 :
+  ls_shapes n A d1 w s2 p1 -> length p2 = n -> length d2 = length A -> length p12 = n ->
+  Forall (fun x => 0 <= x) w -> Forall (fun x => 0 < x) s2 -> 0 < alpha ->
+  normal_eq n A d1 w alpha s2 p1 -> normal_eq n A d2 w alpha s2 p2 ->
+  normal_eq n A (lin a d1 b d2) w alpha s2 p12 ->
+  veq p12 (lin a p1 b p2) /\
+  forall Qm, wfm n Qm -> veq (mv Qm p12) (lin a (mv Qm p1) b (mv Qm p2)).
+Proof.
+  intros Hsh H2 Hd2 H12 Hw Hs Ha N1 N2 N12. pose proof Hsh as (HA & Hd1 & Hlw & Hls & H1).
+  assert (E: veq p12 (lin a p1 b p2)).
+  { apply (optimal_unique_damped n A (lin a d1 b d2) w alpha s2); try assumption.
+    - repeat split; try assumption; rewrite length_lin; congruence.
+    - apply ls_linear; assumption. }
+  split; [exact E|]. intros Qm HQ. rewrite E. apply (mv_lin n); assumption.
+Qed.
+
+Theorem ls_predict_linear_injective n A w s2 a p1 d1 b p2 d2 p12 :
+  ls_shapes n A d1 w s2 p1 -> length p2 = n -> length d2 = length A -> length p12 = n ->
+  Forall (fun x => 0 < x) w -> Forall (fun x => 0 <= x) s2 -> injective_on n A ->
+  normal_eq n A d1 w 0 s2 p1 -> normal_eq n A d2 w 0 s2 p2 ->
+  normal_eq n A (lin a d1 b d2) w 0 s2 p12 ->
+  veq p12 (lin a p1 b p2) /\
+  forall Qm, wfm n Qm -> veq (mv Qm p12) (lin a (mv Qm p1) b (mv Qm p2)).
+Proof.
+  intros Hsh H2 Hd2 H12 Hw Hs Hinj N1 N2 N12. pose proof Hsh as (HA & Hd1 & Hlw & Hls & H1).
+  assert (E: veq p12 (lin a p1 b p2)).
+  { apply (optimal_unique_injective n A (lin a d1 b d2) w s2); try assumption.
+    - repeat split; try assumption; rewrite length_lin; congruence.
+    - apply ls_linear; assumption. }
+  split; [exact E|]. intros Qm HQ. rewrite E. apply (mv_lin n); assumption.
+Qed.
